@@ -90,6 +90,10 @@ def degenerate_texts():
                         if t not in seen: seen.add(t); out.append(t)
     return out
 
+# segments with a ':' that is preceded by characters a scheme cannot contain (a first segment like that still needs the "./" guard),
+# or by nothing, or by scheme characters only
+COLON_SEGS = ["p=q:r", "a_b:c", "~a:b", "%41:b", "u@h:80", ":x", "c:d", "1:2", "a.b+c-d:e", "a:", "!:x", "%3A:"]
+
 # IPv6 literals whose spelling is longer or shorter than the canonical 39-character form uriToString writes, and IPv4 tails
 LONG_IP6 = ["[0000:0000:0000:0000:0000:ffff:255.255.255.255]", "[0000:0000:0000:0000:0000:0000:100.100.100.100]", "[FFFF:FFFF:FFFF:FFFF:FFFF:FFFF:255.255.255.255]",
             "[0:0:0:0:0:0:0.0.0.0]", "[::]", "[::1.2.3.4]", "[1:2:3:4:5:6:7:8]", "[0001:0002:0003:0004:0005:0006:0007:0008]", "[::ffff:192.168.100.200]", "[1::]", "[1:2:3:4:5:6:77.77.77.77]"]
